@@ -301,9 +301,52 @@ def _assign_value(step, kind):
     raise HarnessError(f"bad assign {step}")
 
 
+SELF_OPS = {"update_self", "ior_self", "item_self", "setitem_self", "set_self", "attr_self", "type_self", "token_self",
+            "cc_self", "csp_self", "alias_params", "params_ior", "ior"}
+
+
+def _alias_op(kind, v, step):
+    """mutators / attribute assignments whose argument is (or shares structure with) what the view itself hands out"""
+    import operator
+
+    op, x, y = step["op"], step.get("x"), step.get("y")
+    if op == "update_self":
+        v.update(v)
+    elif op == "ior_self":
+        operator.ior(v, v)
+    elif op == "ior":
+        operator.ior(v, list(step["xs"]) if kind == "set" else dict(tuple(p) for p in step["ps"]))
+    elif op == "item_self":
+        v[x] = v[x]
+    elif op == "setitem_self":
+        v[step["n"]] = v[step["n"]]
+    elif op == "set_self":
+        v.set(v.start, v.stop, v.length, v.units)
+    elif op == "attr_self":
+        setattr(v, step["tag"], getattr(v, step["tag"]))
+    elif op == "type_self":
+        v.type = v.type
+    elif op == "token_self":
+        v.token = v.token
+    elif op in ("cc_self", "csp_self"):
+        setattr(v, step["tag"], getattr(v, step["tag"]))
+    elif op == "alias_params":            # get / (mutate) / assign back the very same dict
+        p = v.parameters
+        if step.get("tag") == "mut":
+            p[x] = y
+        v.parameters = p
+    elif op == "params_ior":              # w.parameters |= {...}: in-place update, then assignment of the same dict
+        v.parameters |= dict(tuple(p) for p in step["ps"])
+    else:
+        raise HarnessError(op)
+    return U("any")
+
+
 def _view_op(kind, v, step):
     """perform the mutator on the live view; returns the value read back for typed attribute sets"""
     op = step["op"]
+    if op in SELF_OPS:
+        return _alias_op(kind, v, step)
     x, y = step.get("x"), step.get("y")
     rb = U("any")
     if kind == "set":
@@ -467,9 +510,24 @@ def run_trace(steps, t=0, exps=None):
                         resp.headers[name] = step["y"]
                 elif op == "del_prop":
                     delattr(resp, prop)
+                elif op == "assign" and step["tag"] in ("alias", "alias_list"):
+                    # the assigned object is what a view slot holds (a view read earlier, a kept object, ...)
+                    sprop, skind, sname, sobj = views[step["n"]]
+                    vobj = sobj
+                    setattr(resp, prop, sobj if step["tag"] == "alias" else [sobj])
                 elif op == "assign":
                     val = _assign_value(step, kind)
-                    if step.get("vw"):
+                    if step.get("via") == "other":
+                        # the object comes from the same property of ANOTHER response (a view bound over there)
+                        other = Response()
+                        setattr(other, prop, val)
+                        val = getattr(other, prop)
+                        if step["tag"] == "list" and kind == "wa":
+                            val = [val]          # a list item stays bound to the other response
+                    if step.get("vw") and step.get("via") == "other":
+                        vobj = val[0] if isinstance(val, list) else val
+                        views[step["vw"]] = (prop, kind, name, vobj)
+                    elif step.get("vw"):
                         # the caller keeps a reference to the assigned object(s) and may mutate it later
                         tag = step["tag"]
                         if tag == "value" and kind in ("wa", "csp", "cr"):
@@ -530,9 +588,39 @@ MIMETYPES = ["text/html", "application/json", "image/svg+xml", "text/plain", "ap
 UNITS = ["bytes", "items", None]
 
 
+def alias_ops(kind, small=False):
+    """mutators / attribute assignments fed with what the view itself hands out (see _alias_op)"""
+    if kind == "set":
+        out = [{"op": "update_self"}, {"op": "ior", "xs": ["X-A"]}, {"op": "ior", "xs": ["cookie", "Origin"]},
+               {"op": "setitem_self", "n": 0}, {"op": "setitem_self", "n": -1}, {"op": "setitem_self", "n": 5}]
+    elif kind == "cc":
+        tags = ["max_age", "no_cache", "public"] if small else CC_ATTRS
+        out = [{"op": "update_self"}, {"op": "ior_self"}, {"op": "ior", "ps": [["max-age", "0"], ["public", None]]},
+               {"op": "item_self", "x": "max-age"}, {"op": "item_self", "x": "no-cache"}, {"op": "item_self", "x": "x-missing"}]
+        out += [{"op": "cc_self", "tag": g} for g in tags]
+    elif kind == "csp":
+        tags = ["default_src", "sandbox"] if small else CSP_ATTRS[:8]
+        out = [{"op": "update_self"}, {"op": "ior_self"}, {"op": "ior", "ps": [["img-src", "*"]]},
+               {"op": "item_self", "x": "default-src"}, {"op": "item_self", "x": "x-missing"}]
+        out += [{"op": "csp_self", "tag": g} for g in tags]
+    elif kind == "mtp":
+        out = [{"op": "update_self"}, {"op": "ior_self"}, {"op": "ior", "ps": [["q", "1"]]}, {"op": "item_self", "x": "charset"},
+               {"op": "item_self", "x": "missing"}]
+    elif kind == "cr":
+        out = [{"op": "set_self"}] + [{"op": "attr_self", "tag": g} for g in ("units", "start", "stop", "length")]
+    elif kind == "wa":
+        out = [{"op": "alias_params"}, {"op": "alias_params", "tag": "mut", "x": "k", "y": "v"},
+               {"op": "alias_params", "tag": "mut", "x": "realm", "y": ""}, {"op": "params_ior", "ps": [["a", "b"]]},
+               {"op": "params_ior", "ps": [["realm", "z"], ["stale", "TRUE"]]}, {"op": "params_ior", "ps": []},
+               {"op": "type_self"}, {"op": "token_self"}]
+    else:
+        out = []
+    return out
+
+
 def ops_for(kind, rng=None, small=False):
     """The op alphabet of a view kind over a small argument universe (without "vw")."""
-    out = []
+    out = alias_ops(kind, small)
     if kind == "set":
         items = SET_ITEMS[:4] if small else SET_ITEMS
         for x in items:
